@@ -535,17 +535,4 @@ def grammarForms : List (String × List String) :=
    ("window_frame_low", ["UNBOUNDED PRECEDING", "window_relative_position"]),
    ("window_frame_high", ["UNBOUNDED FOLLOWING", "window_relative_position"])]
 
-/-- (IGNORE NULLS allowed, windowing clause allowed) of one production of `analytic_function` -/
-def rightsOfProduction (prod : String) : String × Bool × Bool :=
-  let ws := prod.splitOn " "
-  (ws.headD "", ws.contains "IGNORE", ws.contains "analytic_clause_with_windowing")
-
-/-- fold the productions: a class has a right if one of its productions grants it -/
-def rightsOfGrammar (prods : List String) : List (String × Bool × Bool) :=
-  prods.foldl (fun acc prod =>
-    let r := rightsOfProduction prod
-    if acc.any (fun a => a.1 == r.1) then
-      acc.map (fun a => if a.1 == r.1 then (a.1, a.2.1 || r.2.1, a.2.2 || r.2.2) else a)
-    else acc ++ [r]) []
-
 end Csvq.Analytic
